@@ -224,6 +224,15 @@ func (l *OpenFgaDslListener) ExitConditionParameter(ctx *parser.ConditionParamet
 }
 
 func (l *OpenFgaDslListener) ExitConditionExpression(ctx *parser.ConditionExpressionContext) {
+	// the expression rule takes every token up to the next closing brace: when the brace of a condition
+	// is missing, the declaration of the next condition ends up inside the expression and is lost
+	if declarations := ctx.GetTokens(parser.OpenFGAParserCONDITION); len(declarations) > 0 {
+		ctx.GetParser().NotifyErrorListeners(
+			"a condition is declared inside the expression of another condition, a closing brace may be missing",
+			declarations[0].GetSymbol(),
+			nil)
+	}
+
 	// the expression rule also takes the white space in front of the closing brace (the line break, or
 	// blanks when the brace stands on the expression's line): it is layout, not part of the expression,
 	// and the printer puts the brace on a line of its own
